@@ -340,6 +340,13 @@ def run(tier, seed, drv):
             if rng.random() < 0.5:
                 stims[1]["step"] = stims[0]["step"]
             items.append((scn, stims, scn["n_ticks"], f"{si}:multi:{k}"))
+    # an interrupt of a device k loop iterations after the instant at which its own LAST callback becomes due
+    # (around the moment the master's sleep expires and the tick starts), followed by later interrupts: the
+    # scheduler must survive that window and keep serving
+    P1 = 10_000_000
+    oneshot = {"components": [dev("one", cb={"kind": "list", "delays": [P1, None, None, None, None]}), dev("oth")], "n_ticks": 3}
+    for k in (range(0, 10) if tier == "quick" else range(0, 24)):
+        items.append((oneshot, [{"real": P1, "yields": k, "comp": "one"}, {"real": 3 * P1, "comp": "one"}, {"real": 4 * P1, "comp": "oth"}], 3, f"oneshot:multi:{k}"))
     with ProcessPoolExecutor(max_workers=min(14, os.cpu_count() or 4)) as ex:
         outs = list(ex.map(_work, items, chunksize=8))
     for o in outs:
